@@ -380,6 +380,12 @@ def no_bad_adjacency(toks):
     return True
 
 
+def lit_tokens_std(toks):
+    """python twin of C02.litToksStd (Fortran 2008 C412), evaluated on the real writer's tokens:
+    a numeric literal with exponent letter d must not carry a kind parameter"""
+    return not any(isinstance(t, list) and t[0] == "num" and t[3] == 2 and t[4] != "_" for t in toks)
+
+
 # ---------------------------------------------------------------- write / re-read with the real code
 _W = _R = None
 
